@@ -309,6 +309,9 @@ func diffKind(d string) string {
 var strictPathRe = regexp.MustCompile(`^([\w.\[\]]+): (.*)$`)
 
 func strictErrClass(s *amSchema, root *amType, msg string) string {
+	if strings.Contains(msg, "unexpected end of JSON input") {
+		return "unexpected end of JSON input"
+	}
 	first := msg
 	if i := strings.Index(msg, "\n"); i >= 0 {
 		first = msg[:i]
